@@ -47,7 +47,7 @@ PROPS = {
                 state=kinds("RQ", "CX", "AB", "AI"), effects=eff("ev", "transfer"), errnames=False),
     "C07": dict(profiles=["money", "bindings"], monitors=["issueLaw", "volumeLaw"],
                 state=kinds("RQ", "VO", "PR", "B"), effects=eff("transfer"), errnames=False),
-    "C08": dict(profiles=["lifecycle", "money"], monitors=["respondLaw", "rejectedNoChange", "settlement"],
+    "C08": dict(profiles=["lifecycle", "money"], monitors=["respondLaw", "rejectedNoChange", "settlement", "requests"],
                 state=kinds("AI", "AB", "RS", "RQ"), effects=eff("transfer", "slash"), errnames=True),
     "C09": dict(profiles=["lifecycle", "modules"], monitors=["lifecycle"],
                 state=kinds("CX"), effects=eff("ev", "statecb"), errnames=True),
@@ -63,7 +63,7 @@ PROPS = {
                 state=kinds("B", "PR"), effects=eff("slash"), errnames=True),
     "C15": dict(profiles=["bindings", "authority"], monitors=["indexes", "stability", "queryExact"],
                 state=kinds("Q", "D", "B", "OB", "OW", "PO", "PR"), effects=eff(), errnames=True),
-    "C16": dict(profiles=["lifecycle", "mixed"], monitors=["requests", "counts"],
+    "C16": dict(profiles=["lifecycle", "mixed"], monitors=["requests", "counts", "lifecycle"],
                 state=kinds("CX", "RQ", "RS", "AI", "AB"), effects=eff("ev"), errnames=False),
     "C17": dict(profiles=["queries"], monitors=["queryExact"],
                 state=kinds("Q", "D", "B", "WD", "CX", "RQ", "RS", "AB", "EF", "OE"), effects=eff(), errnames=True),
